@@ -17,14 +17,14 @@ TABLE_DEPS = ["c20_num_normalize", "c20_num_add", "c20_num_subtract", "c20_num_m
               "c20_core_div2", "c20_core_quot", "c20_core_rem", "c20_core_mod", "c20_core_inc", "c20_core_dec",
               "c20_core_incq", "c20_core_decq", "c20_core_abs", "c20_core_zerop", "c20_core_inline_flags",
               "c20_opt_ops"]
-SHARD = 400
-RULE = ("operand pairs from a 44-element universe (small and huge ints up to 10^400, ratios with small and "
+SHARD = 1500
+RULE = ("operand pairs from a 48-element universe (small and huge ints up to 10^400, ratios with small and "
         "huge parts, decimals incl. signed zeros, floats incl. +-0.0, +-inf, nan, 2^53, 1e300) x "
         "{+ - * / quot rem mod, < <= > >= =} and single operands x {inc dec inc' dec' - abs / zero?}, "
         "plus (operator/<name> a b) for the 12 arithmetic/comparison names the optimizer rewrites; every "
         "case is evaluated along four call paths (literal call form, apply, inlining disabled, precompiled "
-        "fn on values). thorough: all pairs; quick: all exact x exact pairs for the seven arithmetic ops, "
-        "a seeded sample of the rest. Random operands up to 2^600 with random signs and denominators. "
+        "fn on values). thorough: all 48x48 pairs for every binary operation; quick: a seeded sample of "
+        "the pairs, all unary cases. Random operands up to 2^600 with random signs and denominators. "
         "A case is non-trivial when the result is not an operand and is not an exception; distinct = "
         "distinct JSON encoding.")
 TRUSTED = ["CPython int is arbitrary-precision and fractions.Fraction is exact, always-reduced rational "
@@ -42,6 +42,10 @@ ASSUMPTIONS = ["operands are int, Fraction (reduced, denominator > 1), Decimal o
 FINDINGS = {}
 EXHAUSTIVE = {"quick": False, "thorough": True}
 HARD_TIMEOUT = 60
+# compile_and_exec_form appends every generated module to the namespace's *generated-python*
+# string (runtime.add_generated_python: `v._root = v._root + text`), which is quadratic over a
+# long run with 400-digit literals; the switch only disables that debugging aid.
+WORKER_ENV = {"BASILISP_EMIT_GENERATED_PYTHON": "false"}
 
 # ---- universe ---------------------------------------------------------------------------
 I = lambda v: {"t": "int", "v": v}
@@ -84,24 +88,25 @@ def _rand_exact(rng):
 def cases(tier, rng):
     yield {"k": "probe"}
     quick = tier == "quick"
-    # 1. arithmetic, exhaustive over exact x exact
+    # 1. arithmetic over exact x exact (thorough: exhaustive)
+    exact_pairs = [(x, y) for x in EXACT for y in EXACT]
     for op in ARITH:
-        for x in EXACT:
-            for y in EXACT:
-                yield {"k": "core", "op": op, "args": [x, y]}
+        ps = rng.sample(exact_pairs, 260) if quick else exact_pairs
+        for x, y in ps:
+            yield {"k": "core", "op": op, "args": [x, y]}
     # 2. pairs with a Decimal / float operand, comparisons, operator/<name>
     mixed = [(x, y) for x in UNIV for y in UNIV if not (x in EXACT and y in EXACT)]
     allp = [(x, y) for x in UNIV for y in UNIV]
     for op in ARITH:
-        ps = rng.sample(mixed, 140) if quick else mixed
+        ps = rng.sample(mixed, 90) if quick else mixed
         for x, y in ps:
             yield {"k": "core", "op": op, "args": [x, y]}
     for op in CMP:
-        ps = rng.sample(allp, 120) if quick else allp
+        ps = rng.sample(allp, 70) if quick else allp
         for x, y in ps:
             yield {"k": "core", "op": op, "args": [x, y]}
     for op in PYOPS:
-        ps = rng.sample(allp, 100) if quick else allp
+        ps = rng.sample(allp, 50) if quick else allp
         for x, y in ps:
             yield {"k": "py", "op": op, "args": [x, y]}
     # 3. unary
@@ -109,7 +114,7 @@ def cases(tier, rng):
         for x in UNIV:
             yield {"k": "core", "op": op, "args": [x]}
     # 4. random big operands
-    n = 1200 if quick else 20000
+    n = 700 if quick else 20000
     for _ in range(n):
         r = rng.random()
         if r < 0.75:
